@@ -36,6 +36,8 @@ def demo_cmd(meta, mid=None):
     c = meta["demo_cmd"]
     m = re.search(r"((?:cd \S+ && )?go test.*)$", c)
     cmd = m.group(1)
+    cmd = re.split(r"\s*(?:;|&&)\s*rm\s", cmd)[0]   # the author's own clean-up would remove the demo before the second run
+    cmd = re.split(r"\s+#", cmd)[0]
     if cmd.count(")") > cmd.count("("):   # the author wrapped it in a subshell
         cmd = cmd.rstrip().rstrip(")")
     return cmd
@@ -69,7 +71,8 @@ def confirm(mid):
         for root, _, files in os.walk(os.path.join(d, "demo")):
             for f in files:
                 rel = os.path.relpath(os.path.join(root, f), os.path.join(d, "demo"))
-                os.remove(os.path.join(wt, rel))
+                if os.path.exists(os.path.join(wt, rel)):
+                    os.remove(os.path.join(wt, rel))
         ok = True
         for m in MODS:
             rc, out = sh("go test -vet=off -count=1 -timeout 25m ./...", os.path.join(wt, m))
